@@ -220,29 +220,51 @@ def firstMatch : List (Re × List DUnit) → List Char → Option (List DUnit ×
     | some cp => some (gs, cp)
     | none => firstMatch rest s
 
-/-- The complete forms of the date-time-like spelling this model covers (after the `P`):
-    `YYYY-MM-DDThh:mm:ss`, `YYYYMMDDThhmmss`, `YYYY-DDDThh:mm:ss`, `YYYYDDDThhmmss`; the result is
-    (years, months, days, hours, minutes, seconds). -/
+/-- Exactly `w` ASCII digits at the start of `s`: (the digits, the rest). -/
+def takeDigits : Nat → List Char → Option (List Char × List Char)
+  | 0, s => some ([], s)
+  | _ + 1, [] => none
+  | w + 1, c :: cs =>
+    if isDig c then (takeDigits w cs).map (fun (ds, r) => (c :: ds, r)) else none
+
+/-- The literal `c` at the start of `s`. -/
+def expect (c : Char) : List Char → Option (List Char)
+  | x :: xs => if x = c then some xs else none
+  | [] => none
+
+/-- A separator that only the extended format writes. -/
+def sep (on : Bool) (c : Char) (s : List Char) : Option (List Char) := if on then expect c s else some s
+
+/-- One complete form of the date-time-like spelling (after the `P`), extended (`-`, `:`) or basic,
+    calendar (`MM`, `DD`) or ordinal (`DDD`):  `YYYY-MM-DDThh:mm:ss`, `YYYYMMDDThhmmss`,
+    `YYYY-DDDThh:mm:ss`, `YYYYDDDThhmmss`.  Result: (years, months, days, hours, minutes, seconds). -/
+def altForm (ext cal : Bool) (s : List Char) : Option (Nat × Nat × Nat × Nat × Nat × Nat) := do
+  let (y, s) ← takeDigits 4 s
+  let s ← sep ext '-' s
+  let (mo, s) ← (if cal then takeDigits 2 s else some ([], s))
+  let s ← sep (ext && cal) '-' s
+  let (d, s) ← takeDigits (if cal then 2 else 3) s
+  let s ← expect 'T' s
+  let (h, s) ← takeDigits 2 s
+  let s ← sep ext ':' s
+  let (mi, s) ← takeDigits 2 s
+  let s ← sep ext ':' s
+  let (sec, s) ← takeDigits 2 s
+  if s.isEmpty then
+    some (digitsVal y, digitsVal mo, digitsVal d, digitsVal h, digitsVal mi, digitsVal sec)
+  else none
+
+/-- The complete forms of the date-time-like spelling this model covers. -/
 def altParse (s : List Char) : Option (Nat × Nat × Nat × Nat × Nat × Nat) :=
-  let v := digitsVal
-  match s with
-  | [y1, y2, y3, y4, '-', m1, m2, '-', d1, d2, 'T', h1, h2, ':', n1, n2, ':', s1, s2] =>
-    if [y1, y2, y3, y4, m1, m2, d1, d2, h1, h2, n1, n2, s1, s2].all isDig then
-      some (v [y1, y2, y3, y4], v [m1, m2], v [d1, d2], v [h1, h2], v [n1, n2], v [s1, s2])
-    else none
-  | [y1, y2, y3, y4, '-', d1, d2, d3, 'T', h1, h2, ':', n1, n2, ':', s1, s2] =>
-    if [y1, y2, y3, y4, d1, d2, d3, h1, h2, n1, n2, s1, s2].all isDig then
-      some (v [y1, y2, y3, y4], 0, v [d1, d2, d3], v [h1, h2], v [n1, n2], v [s1, s2])
-    else none
-  | [y1, y2, y3, y4, m1, m2, d1, d2, 'T', h1, h2, n1, n2, s1, s2] =>
-    if [y1, y2, y3, y4, m1, m2, d1, d2, h1, h2, n1, n2, s1, s2].all isDig then
-      some (v [y1, y2, y3, y4], v [m1, m2], v [d1, d2], v [h1, h2], v [n1, n2], v [s1, s2])
-    else none
-  | [y1, y2, y3, y4, d1, d2, d3, 'T', h1, h2, n1, n2, s1, s2] =>
-    if [y1, y2, y3, y4, d1, d2, d3, h1, h2, n1, n2, s1, s2].all isDig then
-      some (v [y1, y2, y3, y4], 0, v [d1, d2, d3], v [h1, h2], v [n1, n2], v [s1, s2])
-    else none
-  | _ => none
+  match altForm true true s with
+  | some r => some r
+  | none =>
+    match altForm true false s with
+    | some r => some r
+    | none =>
+      match altForm false true s with
+      | some r => some r
+      | none => altForm false false s
 
 /-- Characters a date expression of `TimePointParser` can contain (digits, `W`, the expanded-year
     sign, `-`) plus the newline `$` tolerates at the very end. -/
